@@ -12,7 +12,7 @@ from .oracle import DIR_SUFFIX, H, canonical_dir_bytes, closure_problems, list_s
 class Scenario:
     """A populated source cache, a destination, and a closed request."""
 
-    def __init__(self, ctx, rng, d, dest_kind=None, ntrees=None, allow_missing=False, extra_files=True):
+    def __init__(self, ctx, rng, d, dest_kind=None, ntrees=None, allow_missing=False, extra_files=True, wide=0):
         self.ctx, self.rng, self.d = ctx, rng, d
         self.src_root = os.path.join(d, "src")
         self.dest_root = os.path.join(d, "dest")
@@ -33,6 +33,12 @@ class Scenario:
                 prev = self.trees[rng.randrange(len(self.trees))]
                 for i, (rel, dg) in enumerate(sorted(prev["listing"].items())[:2]):
                     files[(f"shared{i}",)] = self.blobs[dg]
+            if wide and t == 0:
+                # a directory wider than any batching constant in the code (hundreds of distinct small files)
+                files = dict(files)
+                tag = rng.getrandbits(32)
+                for i in range(wide):
+                    files[("wide", f"f{i:04d}")] = b"wide %d %d" % (tag, i)
             p = os.path.join(self.ws, f"t{t}")
             gen.write_tree(p, files)
             _st, _m, obj, r = env.stage_and_transfer(self.src, p)
